@@ -59,12 +59,13 @@ func newMemtable(vecIdx VectorIndex, txtIdx TextIndex, metaIdx MetadataIndex, si
 //   - uint32: Generated document ID
 //   - error: Error if add fails or memtable is frozen
 func (m *memtable) add(vector []float32, text string, metadata map[string]interface{}) (uint32, error) {
+	m.mu.Lock()
+	defer m.mu.Unlock()
+
+	// Checked under the lock so that no write can start once freeze returned
 	if m.frozen.Load() {
 		return 0, fmt.Errorf("memtable is frozen")
 	}
-
-	m.mu.Lock()
-	defer m.mu.Unlock()
 
 	// Add to underlying index
 	id, err := m.index.Add(vector, text, metadata)
@@ -91,12 +92,13 @@ func (m *memtable) add(vector []float32, text string, metadata map[string]interf
 // Returns:
 //   - error: Error if add fails or memtable is frozen
 func (m *memtable) addWithID(id uint32, vector []float32, text string, metadata map[string]interface{}) error {
+	m.mu.Lock()
+	defer m.mu.Unlock()
+
+	// Checked under the lock so that no write can start once freeze returned
 	if m.frozen.Load() {
 		return fmt.Errorf("memtable is frozen")
 	}
-
-	m.mu.Lock()
-	defer m.mu.Unlock()
 
 	// Add to underlying index
 	if err := m.index.AddWithID(id, vector, text, metadata); err != nil {
@@ -150,7 +152,11 @@ func (m *memtable) hasRoomFor(vector []float32, text string, metadata map[string
 
 // freeze marks the memtable as immutable and ready for flushing.
 // After freezing, no more writes are accepted.
+// It waits for writes in flight, so the index no longer changes once it returns.
 func (m *memtable) freeze() {
+	m.mu.Lock()
+	defer m.mu.Unlock()
+
 	m.frozen.Store(true)
 }
 
@@ -274,31 +280,31 @@ func newMemtableQueue(vecIdx VectorIndex, txtIdx TextIndex, metaIdx MetadataInde
 // If the memtable doesn't have room, it rotates to a new one.
 func (mq *memtableQueue) add(vector []float32, text string, metadata map[string]interface{}) (uint32, error) {
 	mq.mu.Lock()
+	defer mq.mu.Unlock()
 
 	// Check if we need to rotate
 	if !mq.mutable.hasRoomFor(vector, text, metadata) {
 		mq.rotateNoLock()
 	}
 
-	mutable := mq.mutable
-	mq.mu.Unlock()
-
-	return mutable.add(vector, text, metadata)
+	// Write with the lock held so a concurrent rotation cannot freeze
+	// the memtable between selecting it and writing to it
+	return mq.mutable.add(vector, text, metadata)
 }
 
 // addWithID adds a document with a specific ID to the active memtable.
 func (mq *memtableQueue) addWithID(id uint32, vector []float32, text string, metadata map[string]interface{}) error {
 	mq.mu.Lock()
+	defer mq.mu.Unlock()
 
 	// Check if we need to rotate
 	if !mq.mutable.hasRoomFor(vector, text, metadata) {
 		mq.rotateNoLock()
 	}
 
-	mutable := mq.mutable
-	mq.mu.Unlock()
-
-	return mutable.addWithID(id, vector, text, metadata)
+	// Write with the lock held so a concurrent rotation cannot freeze
+	// the memtable between selecting it and writing to it
+	return mq.mutable.addWithID(id, vector, text, metadata)
 }
 
 // Rotate creates a new mutable memtable and freezes the old one.
